@@ -214,11 +214,15 @@ EXPORT errno_t _wcsrtombs_s_chk(size_t *restrict retvalp, char *restrict dest,
     }
 
     if (likely(l > 0 && l < dmax)) {
-#ifdef SAFECLIB_STR_NULL_SLACK
         if (dest) {
+#ifdef SAFECLIB_STR_NULL_SLACK
             memset(&dest[l], 0, dmax - l);
-        }
+#else
+            /* wcsrtombs only ensures null-termination when len is big enough.
+             * Above we ensured l < dmax, otherwise ESNOSPC. */
+            dest[l] = '\0';
 #endif
+        }
         rc = EOK;
     } else {
         /* errno is usually EILSEQ */
